@@ -41,6 +41,13 @@ TEXT["C07"] = {
     "design_ref": "DESIGN.md section 3, C07",
 }
 
+TEXT["C14"] = {
+    "technique": "property-based testing (rapid) with per-program fault enumeration; differential between the four Execute entry points and recording / failing writers",
+    "text": "For every generated multi-file program the number T of evaluated tick() outputs is measured and every fault position k in 1..T is injected (fault enumeration, cap 40), plus a caller's writer that fails after 0/1/mid/len-1 bytes. Execute, ExecuteBytes, ExecuteWriter (into io.Writer, *bytes.Buffer and *strings.Builder) and ExecuteWriterUnbuffered must agree on bytes and error text; ExecuteWriter must have written nothing on failure; the unbuffered writer must hold a prefix of the fault-free output; the writer's error must be returned (errors.Is); a fault-free run after the failures must reproduce the original bytes.",
+    "note": "Trusted: recording/failing writers and the tick() fault injector of the harness. Faults other than an erroring context function (e.g. panicking user code) are not injected.",
+    "design_ref": "DESIGN.md section 3, C14",
+}
+
 PENDING_REASON = "check not built yet in this build phase (DESIGN.md section 3 describes the planned PBT check); will be claimed once its quick tier is silent on the unchanged tree and kills its mutants"
 
 
@@ -65,7 +72,7 @@ def main():
                 "evidence_file": f"/verif/evidence/{pid}.json",
                 "replay_cmd_template": f"python3 bin/check.py {pid} --replay {{path}}",
                 "engine": "harness",
-                "level_claimed": {"category": "exploration", "text": t["text"], "design_ref": t["design_ref"]},
+                "level_claimed": {"category": t.get("category", "exploration"), "text": t["text"], "design_ref": t["design_ref"]},
                 "level_note": t["note"],
                 "technique": t["technique"],
             })
